@@ -71,11 +71,21 @@ def gen(rng, tier, index):
         # the same gateway object is stopped and started again on a new (clean) broker session
         ops.insert(rng.randrange(len(ops) // 2, len(ops)), ["session_restart"])
     persist = rng.choice([None, None, "json", "pickle"])
+    sched = {"policy": "serial"}
     if persist and rng.random() < 0.8:
-        ops.insert(rng.randrange(len(ops) // 2, len(ops)), ["restart"])
+        if flavour == "mqtt" and rng.random() < 0.5:
+            # start-up of the threaded gateway races with retained presentations the broker delivers as soon
+            # as the presentation topics are subscribed (client-library thread), under a pre-emptive schedule
+            sched = {"policy": "rw", "seed": rng.getrandbits(32), "p": rng.choice([0.02, 0.08, 0.2])}
+            new_node = rng.choice([77, 78, 150])
+            retained = [[f"{new_node};255;0;0;17;2.1", 0], [f"{new_node};1;0;0;6;t", 0], [f"{nodes[0]};9;0;0;3;late child", 0],
+                        [f"{new_node + 1};255;0;0;17;2.0", 0]]
+            ops.insert(rng.randrange(len(ops) // 2, len(ops)), ["restart", retained[: rng.randint(1, 4)]])
+        else:
+            ops.insert(rng.randrange(len(ops) // 2, len(ops)), ["restart"])
     ops.append(["probe"])
     cfg = {"flavour": flavour, "version": version, "in_prefix": in_prefix, "out_prefix": out_prefix, "retain": rng.choice([True, False]),
-           "persistence": persist, "sched": {"policy": "serial"}}
+           "persistence": persist, "sched": sched}
     if rng.random() < 0.25:
         cfg["pub_raise"] = sorted(rng.sample(range(30), 4))
     if rng.random() < 0.25:
@@ -95,9 +105,23 @@ class RecordingBroker(simbroker.SimBroker):
         super().__init__(*args, **kwargs)
         self.attempted = []
 
+    retained = ()  # (topic, payload, qos) the broker holds as retained messages
+
     def subscribe(self, topic, callback, qos):
         self.attempted.append(topic)
-        return super().subscribe(topic, callback, qos)
+        res = super().subscribe(topic, callback, qos)
+        hits = [m for m in self.retained if simbroker.topic_matches(topic, m[0])]
+        if hits and self.world is not None:
+            # retained messages arrive from the client library's own thread right after the SUBACK
+            def client_thread(msgs=hits):
+                for top, payload, q in msgs:
+                    try:
+                        callback(top, payload, q)
+                    except Exception as exc:  # pylint: disable=broad-except
+                        self.recv_errors.append((top, repr(exc), ""))
+            self.retained = [m for m in self.retained if m not in hits]
+            self.world.sim.spawn(client_thread, role="mqtt-client")
+        return res
 
 
 def _topic(prefix, line):
@@ -314,7 +338,30 @@ def run(case):
                     del broker.subs[:]
                     del broker.attempted[:]
                     gateway = build()
-                    world.start(persistence=True)
+                    if len(op) > 1 and flavour == "mqtt":
+                        broker.retained = [(_topic(in_p, line)[0], _topic(in_p, line)[1], q) for line, q in op[1]]
+                        box = {}
+                        done = kernel.SimEvent()
+
+                        def starter(gw=gateway):
+                            try:
+                                gw.start_persistence()
+                                gw.start()
+                            except Exception as exc:  # pylint: disable=broad-except
+                                box["exc"] = exc
+                            finally:
+                                done.set()
+
+                        sim.spawn(starter, role="starter")
+                        done.wait(30.0)
+                        world.settle()
+                        probes["racing_restarts"] = probes.get("racing_restarts", 0) + 1
+                        if "exc" in box:
+                            violations.append(_vio("start-raised", {"exc": repr(box["exc"]), "subs": [s_[0] for s_ in broker.subs][:8]},
+                                                   exc=type(box["exc"]).__name__))
+                            break
+                    else:
+                        world.start(persistence=True)
                     health("restart")
                     restored = {nid: set(s.children) for nid, s in gateway.sensors.items()}
                     if restored != {k: v for k, v in presented.items()}:
